@@ -14,7 +14,7 @@ import (
 // filled buffer in the middle of the stream puts padding between records.
 func ruleBufferedOrder(r *Report) {
 	const rule = "buffered-order"
-	r.Rule(rule, 3, "recordio.Writer.Write bypasses the buffer only when the buffer is empty and never in the block-aligned flavour, and tops the buffer up from the argument before every flush inside the write loop")
+	r.Rule(rule, 4, "recordio.Writer.Write bypasses the buffer only when the buffer is empty and never in the block-aligned flavour, and tops the buffer up from the argument before every flush inside the write loop")
 	fn := r.NeedFunc(rule, "recordio.Writer.Write")
 	if fn == nil {
 		return
@@ -103,6 +103,51 @@ func ruleBufferedOrder(r *Report) {
 			r.Bad(rule, key, bypass[0].Pos(), "the direct write of the caller's slice is reachable in the block-aligned (DirectIO) flavour: a record larger than the free buffer plus one buffer (10000 bytes with a 4 KiB buffer, 9 MiB with the default) is handed to the O_DIRECT descriptor unaligned, write(2) fails with EINVAL and the error sticks to the writer")
 		} else {
 			r.OK(rule, key, bypass[0].Pos(), "direct write only in the unaligned flavour")
+		}
+	}
+	// (1c) progress: with the bypass closed for aligned writers, an iteration that copies nothing into an empty buffer
+	// (a writer that was given no buffer at all) would spin for ever; the copy's count is tested and the loop left
+	key = rule + "/recordio.Writer.Write/loop-makes-progress"
+	{
+		progress := false
+		eachInstr(fn, func(s Site) {
+			c, ok := s.Instr.(*ssa.Call)
+			if !ok {
+				return
+			}
+			bi, isB := c.Call.Value.(*ssa.Builtin)
+			if !isB || bi.Name() != "copy" || !reachFrom(s.Block, nil)[s.Block] {
+				return
+			}
+			// an If on (copy result == 0) or on len(b.buf) == 0 whose one side leaves the loop with a return
+			for _, b := range liveBlocks(fn) {
+				cnd, tS, fS, _, _, ok := effCond(b)
+				if !ok {
+					continue
+				}
+				dep := valueDependsOn(cnd, func(x ssa.Value) bool { return x == ssa.Value(c) }) ||
+					valueDependsOn(cnd, func(x ssa.Value) bool {
+						lc, isC := x.(*ssa.Call)
+						if !isC {
+							return false
+						}
+						lb, isLB := lc.Call.Value.(*ssa.Builtin)
+						return isLB && lb.Name() == "len" && isField(lc.Call.Args[0], "buf")
+					})
+				if !dep {
+					continue
+				}
+				for _, su := range []*ssa.BasicBlock{tS, fS} {
+					if _, isRet := su.Instrs[len(su.Instrs)-1].(*ssa.Return); isRet {
+						progress = true
+					}
+				}
+			}
+		})
+		if progress {
+			r.OK(rule, key, fn.Pos(), "an iteration that cannot copy anything leaves the loop with an error")
+		} else {
+			r.Bad(rule, key, fn.Pos(), "the write loop can spin for ever: a block-aligned writer without a buffer (DirectIO() with BufferSizeBytes(0)) takes neither the bypass nor copies anything, and Flush of an empty buffer succeeds — FileWriter.Open never returns (NewWriteAheadLog with such a writer factory hangs at 100% CPU)")
 		}
 	}
 	// (2) every Flush inside the loop is dominated by a copy into b.buf[b.n:] and the matching b.n update, in its block chain
